@@ -17,7 +17,7 @@ RULE = ('a dedicated generator: command name outside the fixed-signature table (
         'in both tolerance modes. '
         'Non-trivial = >=2 groups with a non-empty attaching separator, a detaching separator at an interior position, or '
         'a body with a foreign delimiter; distinct by source'
-        '. Also: bodies of 400 / 2500 / 9000 tokens in one group, lone \\\\begin / \\\\end inside brace and bracket arguments within a definition, and unpartnered brackets (incl. \\\\\\\\[2pt]) judged to be text leaves')
+        '. Also: bodies of 400 / 2500 / 9000 tokens in one group, lone \\begin / \\end inside brace and bracket arguments within a definition, and unpartnered brackets (incl. \\\\[2pt]) judged to be text leaves')
 ASSUMPTIONS = [
     'a bracket group after a brace group is outside the stated run shape and is not generated adjacent to the run',
 ]
